@@ -185,4 +185,15 @@ PROPS = {
                          dict(test="TestC14Regression", mode="plain"), dict(test="TestC14ConsensusHashDeterministic", checks=20000, bin="hash", timeout=3000)],
         },
     ),
+    "C20": dict(
+        kind="ext", pkg="./c20", level="exploration", engine="fakebn",
+        technique="model-based property testing (rapid operation sequences against the production DutiesCache over a scripted beacon node; differential oracle = the beacon node's direct answer as a multiset)",
+        level_text="Generated sequences of requests over overlapping / disjoint / repeated index sets and epochs, active-set updates, reorg invalidations with changed tables, trims, caller-side mutation of returned results and beacon errors; "
+                   "every answer must equal the beacon node's own answer, invalidated or trimmed epochs must be fetched afresh, returned results are private copies.",
+        level_note="Single-threaded sequences (concurrent callers only in the race tier); duplicate indices inside one request and table changes without invalidation are outside the domain; metadata maps are not compared.",
+        runs={
+            "quick": [dict(test="TestC20Model", checks=8000, shards=4)],
+            "thorough": [dict(test="TestC20Model", checks=200000, shards=16, timeout=3000)],
+        },
+    ),
 }
